@@ -19,7 +19,7 @@ TRUST = ("Coq 8.16.1 kernel (coqc full .vo build; coqchk -o in the thorough tier
          "tie between the models and /repo is differential execution on every run, not a proof. Modelled by transcription, "
          "not verified against the source text: Interp.v (interpreter), Gen.v (code templates), Front.v (scanner, grammar "
          "parser, unescape), SnapStack.v, LineCol.v, Pratt.v, CharClass.v; CPython str/list semantics and the regex library "
-         "as used there; not modelled: the optimizer passes (their output is validated by the proved checker Opt.v), exec of "
+         "as used there; OptPass.v (two optimizer passes, tied exactly); not modelled: the other three optimizer passes (their output is validated by the proved checker Opt.v), exec of "
          "generated source, CPython's recursion limit, threads, memory.")
 
 PARSE_TECH = "Coq theorems about the reference semantics + extracted-model differential against 4 execution modes"
@@ -94,12 +94,20 @@ CHECKS = {
             "checker validates the tables python-pest's optimizer ACTUALLY produced for every generated grammar (default "
             "pipeline, each single pass, seeded permutations / subsets / repetitions: ~4000 tables per quick run, all "
             "accepted on the current tree; it rejects the outputs of the optimizer defects repaired earlier), and O vs I / "
-            "OG vs IG are compared on all cases (the source of replays). Not modelled: the passes themselves; the exporter "
-            "reads the compiled regex text of an OptimizedChoice and maps it to terminals (trusted). The fused SKIP rule is "
+            "OG vs IG are compared on all cases (the source of replays). Two of the five passes are also MODELLED (OptPass.v: "
+            "Expression.map_bottom_up / map_top_down, the per-rule step of Optimizer.optimize, unroller.unroll, "
+            "inliners.inline_builtin) and PROVED for every grammar to produce only tables the validator accepts "
+            "(C02_unroll_pass_preserves_meaning, C02_inline_builtin_pass_preserves_meaning, and C02_modelled_passes_compose: any "
+            "subset, order or repetition of these two passes preserves every parse; hypotheses: distinct rule names, "
+            "no user rule on the reserved SKIP identifier, e{m,n} with m <= n, built-in entries are plain silent rules - "
+            "checked per grammar on every run); their tie is exact: the table each real pass produces alone must be "
+            "identical to the table the extracted model computes (~12000 comparisons per quick run). Not modelled: the "
+            "skip, squash_choice and inline_silent passes themselves (validated output only) and sequences involving them; "
+            "the exporter reads the compiled regex text of an OptimizedChoice and maps it to terminals (trusted). The fused SKIP rule is "
             "validated too (OptSkip.ochk_skip; C02_fused_skip_rule_is_implicit_skipping: one call of SKIP = pest's implicit "
             "skipping of the original grammar); that the optimised parsers call SKIP at the places where the reference "
             "skips is tied by execution (O/OG vs the reference semantics).", "4.C02",
-            "proved translation validator run on the real optimizer output + optimized-vs-unoptimized differential"),
+            "proved translation validator run on the real optimizer output + proved Coq models of two passes tied exactly + optimized-vs-unoptimized differential"),
     "C08": ("proof", "Theorems (SpecEquiv.v, 22 statements): untagged group is identity, sequence / choice re-association, "
             "extraction of a sub-expression into a fresh silent rule, duplicate alternative, never-matching "
             "alternatives (positive and negated), congruence for every construct (so the rewrites compose at any "
